@@ -111,10 +111,10 @@ theorem C19_reentrant_call_deadlocks (st : LSt) (j : Nat) (hh : st.holder = some
     have := Option.some.inj hk; subst this
     rw [hn] at hin; cases hin
 
-/-- translator fact, pinned: exactly ONE closure passed to `with_session_globals` in /repo re-enters the API
-(`impl<T: AsRef<str>> ToSymbol for T` calls `self.as_ref()` under the lock; finding F21, latent).  A second one
-breaks this theorem. -/
-theorem C19_reentrant_closures_pinned : Mimium.Gen.reentrantClosures.length = 1 := by decide
+/-- translator fact, pinned: NO closure passed to `with_session_globals` in /repo re-enters the API (the one that did —
+`impl<T: AsRef<str>> ToSymbol for T` called `self.as_ref()` under the lock, finding F21 — is repaired in /repo 813b30b).
+Any re-entrant closure breaks this theorem; by `C19_reentrant_call_deadlocks` it would self-deadlock. -/
+theorem C19_reentrant_closures_pinned : Mimium.Gen.reentrantClosures.length = 0 := by decide
 
 /-- `MacroFileEnvGuard` interferes: thread 0 compiles file 10, thread 1 file 20; thread 0's macro reads 20. -/
 theorem C19_env_guard_race :
